@@ -736,6 +736,25 @@ class EbuildProcessor:
         # which isn't always true.
         self.pid = None
 
+    @staticmethod
+    def _quote_env_value(val):
+        """Quote a string so bash reads back exactly that string."""
+        if val.isalnum():
+            return val
+        if "'" not in val:
+            # nothing is special inside single quotes
+            return f"'{val}'"
+        # ANSI-C quoting: backslash is the escape character, so it goes first
+        val = val.replace("\\", "\\\\").replace("'", "\\'")
+        return f"$'{val}'"
+
+    @staticmethod
+    def _escape_double_quoted(val):
+        """Escape a string for use inside bash double quotes."""
+        for char in ("\\", '"', "$", "`"):
+            val = val.replace(char, "\\" + char)
+        return val
+
     def _generate_env_str(self, env_dict):
         env_dict = dict(env_dict)
         # EAPI 9+ marks variables that must be set but not exported (see PMS);
@@ -757,13 +776,13 @@ class EbuildProcessor:
                 )
 
             if isinstance(val, (list, tuple)):
-                assign = f"{key}=({' '.join(f'[{i}]="{value}"' for i, value in enumerate(val))})"
-            elif val.isalnum():
-                assign = f"{key}={val}"
-            elif "'" not in val:
-                assign = f"{key}='{val}'"
+                elements = " ".join(
+                    f'[{i}]="{self._escape_double_quoted(value)}"'
+                    for i, value in enumerate(val)
+                )
+                assign = f"{key}=({elements})"
             else:
-                assign = f"{key}=$'{val.replace("'", "\\'")}'"
+                assign = f"{key}={self._quote_env_value(val)}"
 
             (plain if key in nonexported else exported).append(assign)
 
